@@ -297,6 +297,8 @@ Section StmtInd.
   Hypothesis Hcall : forall f ps, P (TCall f ps).
   Hypothesis Hif : forall c body eis els,
     Forall P body -> Forall (fun cb : sexpr * list stmt => Forall P (snd cb)) eis -> Forall P els -> P (TIf c body eis els).
+  Hypothesis Hcase : forall c gs els,
+    Forall (fun g : list csel * list stmt => Forall P (snd g)) gs -> Forall P els -> P (TCase c gs els).
   Hypothesis Hfor : forall v e1 e2 st body, Forall P body -> P (TFor v e1 e2 st body).
   Hypothesis Hwhile : forall c body, Forall P body -> P (TWhile c body).
   Hypothesis Hrepeat : forall body c, Forall P body -> P (TRepeat body c).
@@ -316,6 +318,14 @@ Section StmtInd.
               | cb :: r => Forall_cons cb (match cb as cb0 return Forall P (snd cb0) with (c0, b0) => lst b0 end) (go r)
               end) eis)
           (lst els)
+    | TCase c gs els =>
+        Hcase c gs els
+          ((fix go (l : list (list csel * list stmt)) : Forall (fun g : list csel * list stmt => Forall P (snd g)) l :=
+              match l with
+              | [] => Forall_nil _
+              | g :: r => Forall_cons g (match g as g0 return Forall P (snd g0) with (s0, b0) => lst b0 end) (go r)
+              end) gs)
+          (lst els)
     | TFor v e1 e2 st body => Hfor v e1 e2 st body (lst body)
     | TWhile c body => Hwhile c body (lst body)
     | TRepeat body c => Hrepeat body c (lst body)
@@ -323,6 +333,15 @@ Section StmtInd.
     | TReturn => Hreturn
     end.
 End StmtInd.
+
+(* selectors the renderer writes back: no negative bound ('- 5': the recorded gap), bounds in the range of the tree's integers *)
+Definition csel_ok (x : csel) : Prop :=
+  match x with
+  | CsInt n v => n = false /\ (v < two128)%N
+  | CsRange n1 v1 n2 v2 => n1 = false /\ (v1 < two128)%N /\ n2 = false /\ (v2 < two128)%N
+  | CsEnum _ => True
+  end.
+Definition sels_ok (ss : list csel) : Prop := ss <> [] /\ Forall csel_ok ss.
 
 Fixpoint rstmt (s : stmt) : Prop :=
   let all := fix all (l : list stmt) : Prop := match l with [] => True | x :: r => rstmt x /\ all r end in
@@ -336,6 +355,14 @@ Fixpoint rstmt (s : stmt) : Prop :=
          | [] => True
          | (c0, b0) :: r => (rexpr c0 /\ all b0) /\ go r
          end) eis /\
+      all els
+  | TCase c gs els =>
+      rexpr c /\
+      (fix go (l : list (list csel * list stmt)) : Prop :=
+         match l with
+         | [] => True
+         | (s0, b0) :: r => (sels_ok s0 /\ all b0) /\ go r
+         end) gs /\
       all els
   | TFor _ e1 e2 st body => rexpr e1 /\ rexpr e2 /\ match st with Some e3 => rexpr e3 | None => True end /\ all body
   | TWhile c body => rexpr c /\ all body
@@ -471,13 +498,90 @@ Proof.
       rewrite Ec, Eb, E. reflexivity.
 Qed.
 
+(* ---- CASE groups ---- *)
+Lemma sint_sp_spec v : (v < two128)%N ->
+  wf_int token tok_class (sint_sp false v) /\ erase_int token tok_num (sint_sp false v) = (false, v).
+Proof.
+  intro Hv. destruct (int_tok_ok v Hv) as (Hc & Hn). cbn [sint_sp wf_int erase_int]. rewrite Hn. split; [exact Hc | reflexivity].
+Qed.
+
+Lemma csel_sp_spec x : csel_ok x ->
+  wf_sel token tok_class (csel_sp x) /\ erase_sel token t_text tok_num (csel_sp x) = x /\ rtriv (sel_lead x).
+Proof.
+  destruct x as [n v|n1 v1 n2 v2|n]; cbn [csel_ok].
+  - intros (-> & Hv). destruct (sint_sp_spec v Hv) as (W & E). cbn [csel_sp wf_sel erase_sel].
+    rewrite E. split; [exact W|]. split; [reflexivity | apply ws1_triv].
+  - intros (-> & Hv1 & -> & Hv2). destruct (sint_sp_spec v1 Hv1) as (W1 & E1). destruct (sint_sp_spec v2 Hv2) as (W2 & E2).
+    cbn [csel_sp wf_sel erase_sel]. rewrite E1, E2.
+    split; [|split; [reflexivity | apply ws1_triv]].
+    split; [exact W1|]. split; [apply nil_triv|]. split; [reflexivity|]. split; [apply ws1_triv | exact W2].
+  - intros _. split; [reflexivity|]. split; [reflexivity | apply ws1_triv].
+Qed.
+
+Lemma msels_sp_spec l : Forall csel_ok l ->
+  Forall (wf_ms token tok_class) (msels_sp l) /\ map (erase_ms token t_text tok_num) (msels_sp l) = l.
+Proof.
+  induction 1 as [|x l Hx _ (W & E)]; [split; [constructor | reflexivity]|].
+  destruct (csel_sp_spec x Hx) as (Wx & Ex & Tx). cbn [msels_sp map] in *. split.
+  - constructor; [|exact W]. cbn [wf_ms]. split; [apply ws1_triv|]. split; [reflexivity|]. split; [exact Tx | exact Wx].
+  - cbn [erase_ms]. rewrite Ex. f_equal. exact E.
+Qed.
+
+Lemma cs_sp_nil f lead : cs_sp f lead [] = CaNil token.
+Proof. reflexivity. Qed.
+Lemma cs_sp_cons f lead ss b l : cs_sp f lead ((ss, b) :: l) =
+  CaCons token lead (csel_sp (match ss with [] => CsEnum [] | x :: _ => x end)) (msels_sp (tl ss)) ws1 colon_t
+    (match b with [] => nl1 ++ empty_comment :: ws1 | _ :: _ => nl1 end) (body_sp f b) (cs_sp f (tail_gap b) l).
+Proof. reflexivity. Qed.
+
+Definition cs_cond (l : list (list csel * list stmt)) : Prop :=
+  (fix go (l : list (list csel * list stmt)) : Prop :=
+     match l with
+     | [] => True
+     | (s0, b0) :: r => (sels_ok s0 /\ rall b0) /\ go r
+     end) l.
+
+Lemma last_gap_cs_triv l : rtriv (last_gap_cs l).
+Proof.
+  induction l as [|[c b] l IH]; [apply nl1_triv|]. destruct l as [|cb l']; [apply tail_gap_triv | exact IH].
+Qed.
+
+Lemma colon_gap_triv (b : list stmt) : rtriv (match b with [] => nl1 ++ empty_comment :: ws1 | _ :: _ => nl1 end).
+Proof. destruct b; repeat constructor. Qed.
+
+Lemma cs_sp_spec : forall l lead wt, rtriv lead -> cs_cond l ->
+  Forall (fun g : list csel * list stmt => Forall stmt_good (snd g)) l ->
+  (l <> [] -> last_gap_cs l = [] -> wt = []) ->
+  wf_cs token tok_class op_level wt (cs_sp ss_of lead l) /\ erase_cs token t_text tok_num (cs_sp ss_of lead l) = l.
+Proof.
+  induction l as [|[ss b] l IH]; intros lead wt Hlead HC HG Hwt.
+  - rewrite cs_sp_nil. split; [exact I | reflexivity].
+  - cbn [cs_cond] in HC. destruct HC as (((Hne & Hss) & _) & HC'). inversion HG as [|g l' Gb Gl]; subst. cbn [snd] in Gb.
+    destruct ss as [|x ss']; [contradiction Hne; reflexivity|].
+    destruct (csel_sp_spec x (Forall_inv Hss)) as (Wx & Ex & _).
+    destruct (msels_sp_spec ss' (Forall_inv_tail Hss)) as (Wm & Em).
+    destruct (body_sp_spec b Gb) as (Wb & Eb & Ab).
+    assert (Hwt' : l <> [] -> last_gap_cs l = [] -> wt = []).
+    { intros Hn Hg. apply Hwt; [discriminate|]. destruct l as [|g l']; [contradiction Hn; reflexivity | exact Hg]. }
+    destruct (IH (tail_gap b) wt (tail_gap_triv b) HC' Gl Hwt') as (W & E).
+    rewrite cs_sp_cons. cbn [tl]. split.
+    + cbn [wf_cs]. split; [exact Hlead|]. split; [exact Wx|]. split; [exact Wm|]. split; [apply ws1_triv|]. split; [reflexivity|].
+      split; [apply colon_gap_triv|]. split; [exact Wb|]. split; [exact W|].
+      intro Ha. specialize (Ab Ha). destruct l as [|[s1 b1] l1].
+      * rewrite cs_sp_nil. cbn [cs_lead]. apply Hwt; [discriminate|]. cbn [last_gap_cs]. exact Ab.
+      * rewrite cs_sp_cons. cbn [cs_lead]. exact Ab.
+    + change ((erase_sel token t_text tok_num (csel_sp x) :: map (erase_ms token t_text tok_num) (msels_sp ss'), rerase_l (body_sp ss_of b))
+                :: erase_cs token t_text tok_num (cs_sp ss_of (tail_gap b) l) = (x :: ss', b) :: l).
+      rewrite Ex, Em, Eb, E. reflexivity.
+Qed.
+
 Lemma ss_of_call f p r : ss_of (TCall f (p :: r)) =
   let '(rest, w3) := pars_of (par_of p) r in SsCallN token (id_tok f) ws1 lpt ws1 (par_of p) rest w3 rpt.
 Proof. reflexivity. Qed.
 
 Theorem ss_of_spec : forall s, rstmt s -> stmt_good s.
 Proof.
-  induction s as [v vs e|f ps|c body eis els IHb IHe IHl|v e1 e2 st body IHb|c body IHb|body c IHb| |] using stmt_ind2; intro R.
+  induction s as [v vs e|f ps|c body eis els IHb IHe IHl|c gs els IHg IHl|v e1 e2 st body IHb|c body IHb|body c IHb| |] using stmt_ind2; intro R.
   - (* assignment *)
     cbn [rstmt] in R. destruct R as (Rvs & Re). destruct (sp_of_spec e Re 0) as (W & E).
     destruct (sels_of_spec vs (sels_good_all vs Rvs)) as (Wv & Ev). split.
@@ -534,6 +638,33 @@ Proof.
                 (erase_b token t_text tok_num (match body with [] => BNone token | x :: l' => BSome token (list_sp ss_of x l') end))
                 (erase_eis token t_text tok_num (eis_sp ss_of nl1 eis)) (erase_el token t_text tok_num el) = TIf c body eis els).
       rewrite Ec, Eb, Ee, Eel. reflexivity.
+  - (* CASE *)
+    cbn [rstmt] in R. destruct R as (Rc & Rg & Rl).
+    change (cs_cond gs) in Rg. change (rall els) in Rl.
+    destruct (sp_of_spec c Rc 0) as (Wc & Ec).
+    assert (Gl : Forall stmt_good els) by (apply (goods _ els (fun s H => H) IHl Rl)).
+    assert (Gg : Forall (fun g : list csel * list stmt => Forall stmt_good (snd g)) gs).
+    { clear -IHg Rg. induction gs as [|[s0 b0] r IH]; [constructor|]. inversion IHg; subst. cbn [cs_cond] in Rg.
+      destruct Rg as ((_ & Rb0) & Rr). constructor; [|apply IH; assumption].
+      cbn [snd] in *. apply (goods _ b0 (fun s H => H)); assumption. }
+    set (el := match els with [] => ENone token | x :: l' => ESome token (last_gap_cs gs) (kwt KElse) nl1 (list_sp ss_of x l') end).
+    set (w4 := match els with [] => last_gap_cs gs | _ :: _ => nl1 end).
+    assert (Hwt : el_lead token el w4 = last_gap_cs gs) by (unfold el, w4; destruct els; reflexivity).
+    destruct (cs_sp_spec gs nl1 (el_lead token el w4) nl1_triv Rg Gg) as (Wg & Eg).
+    { intros _ Hg. rewrite Hwt. exact Hg. }
+    assert (Hw4 : rtriv w4) by (unfold w4; destruct els; [apply last_gap_cs_triv | apply nl1_triv]).
+    assert (Wel : wf_el token tok_class op_level w4 el /\ erase_el token t_text tok_num el = els).
+    { unfold el. destruct els as [|x l']; [split; [exact I | reflexivity]|].
+      destruct (list_sp_spec x l' (Forall_inv Gl) (Forall_inv_tail Gl)) as (W & E & A). split; [|exact E].
+      cbn [wf_el]. split; [apply last_gap_cs_triv|]. split; [reflexivity|]. split; [apply nl1_triv|]. split; [exact W|]. rewrite A. discriminate. }
+    destruct Wel as (Wel & Eel).
+    change (ss_of (TCase c gs els)) with
+      (SsCase token (kwt KCase) ws1 (sp_of c) (gap (sp_of c)) (kwt KOf) (cs_sp ss_of nl1 gs) el w4 (kwt KEndCase)).
+    split.
+    + cbn [wf_s]. split; [reflexivity|]. split; [apply ws1_triv|]. split; [exact Wc|]. split; [apply gap_triv|].
+      split; [apply gap_nil|]. split; [reflexivity|]. split; [exact Wg|]. split; [exact Wel|]. split; [exact Hw4 | reflexivity].
+    + change (TCase (rerase (sp_of c)) (erase_cs token t_text tok_num (cs_sp ss_of nl1 gs)) (erase_el token t_text tok_num el) = TCase c gs els).
+      rewrite Ec, Eg, Eel. reflexivity.
   - (* FOR *)
     cbn [rstmt] in R. destruct R as (R1 & R2 & R3 & Rb). change (rall body) in Rb.
     destruct (sp_of_spec e1 R1 0) as (W1 & E1). destruct (sp_of_spec e2 R2 0) as (W2 & E2).
@@ -619,12 +750,21 @@ Theorem render_negative_constant_refuted :
   parse_fb_tokens (render_fb [102%N] neg_witness) <> OParsed neg_witness.
 Proof. vm_compute. discriminate. Qed.
 
+(* ... and so is a negative CASE selector, which signed_integer does not read at all: the rendered text is rejected *)
+Definition neg_sel_witness : list stmt := [TCase (XAtom (LfName [120%N])) [([CsInt true 5%N], [TExit])] []].
+Theorem render_negative_selector_refuted :
+  parse_fb_tokens (render_fb [102%N] neg_sel_witness) = ORejected.
+Proof. vm_compute. reflexivity. Qed.
+
 (* the premises hold for a concrete, non-trivial list (with an empty loop body and an empty ELSIF body) *)
 Definition ex_stmts : list stmt :=
   [TIf (XBin BLt (XAtom (LfName [97%N])) (XAtom (LfInt false 10%N)))
        [TAssign [120%N] [SField [121%N]; SIndex [XAtom (LfInt false 1%N); XVar [105%N] [SField [106%N]]]] (XBin BAdd (XAtom (LfName [120%N])) (XCall [102%N] [PPos (XAtom (LfBool true)); PNamed [110%N] (XUn UNeg (XAtom (LfName [98%N])))]))]
        [(XAtom (LfName [99%N]), [TExit]); (XAtom (LfName [100%N]), [])] [TReturn];
    TWhile (XAtom (LfBool false)) [];
+   TCase (XVar [115%N] [SField [116%N]])
+     [([CsInt false 1%N; CsRange false 3%N false 5%N; CsEnum [114%N; 101%N; 100%N]], [TExit; TReturn]); ([CsEnum [103%N]], []);
+      ([CsInt false 7%N], [TCase (XAtom (LfName [121%N])) [] [TExit]])] [TAssign [120%N] [] (XAtom (LfInt false 0%N))];
    TRepeat [TCall [103%N] [POut true [111%N] [118%N] [SField [119%N]]]] (XAtom (LfName [97%N]))].
 Example ex_renderable : Forall rstmt ex_stmts /\ ex_stmts <> [].
 Proof.
